@@ -125,6 +125,7 @@ var clauseMessage = map[string][]string{
 	"undefined-type:union-member":               {"Undefined type"},
 	"undefined-type:interface":                  {"Undefined type"},
 	"undefined-type:root":                       {"that does not exist"},
+	"wrong-kind:root-not-object":                {"must be an object type"},
 	"wrong-kind:union-member-not-object":        {"must be OBJECT"},
 	"wrong-kind:implements-non-interface":       {"is a non interface type"},
 	"wrong-kind:input-type-in-output-position":  {"field must be one of SCALAR, OBJECT"},
